@@ -377,3 +377,8 @@ def check(cx):
     cx.include(c03, {"C03.4"}, "C04.9", "shared with C03.4: every version stamp (xmin of a new version, xmax of a delete) is the id of "
                "the executing transaction; a stamp taken from another accessor (xmin, a constant) attributes the write to another "
                "transaction and every snapshot judges it by the wrong fate", floor=14)
+
+    # ---- C04.10 (construct shared with C18.2) ---------------------------------------------------------------------------
+    from . import c18
+    cx.include(c18, {"C18.2"}, "C04.10", "shared with C18.2: a row whose newest version was deleted by a transaction committed before the snapshot is "
+               "hidden before older versions are considered; otherwise a committed DELETE of an updated row is not honoured", floor=3)
